@@ -200,13 +200,13 @@ func TestVerif_C18(t *testing.T) {
 		return map[string]any{"format": c.Format, "len": len(c.Archive), "name_field": vfQ(bytes.TrimRight(c.Archive[:100], "\x00")), "typeflag": string(c.Archive[156:157]), "magic": vfQ(c.Archive[257:265]), "corruptions": len(c.Corr), "all": c.All}
 	}
 	if vfOnlySub("gen") {
-		vfRun(t, vfSub[c18Case]{Prop: "C18", Name: "gen", Checks: vfN(8000, 600000), Gen: c18Gen, Check: c18Check, Sample: sample})
+		vfRun(t, vfSub[c18Case]{Prop: "C18", Name: "gen", Checks: vfN(8000, 2400000), Gen: c18Gen, Check: c18Check, Sample: sample})
 	}
 	if t.Failed() {
 		return
 	}
 	if vfOnlySub("all") {
-		vfRun(t, vfSub[c18Case]{Prop: "C18", Name: "all", Checks: vfN(8, 480), Check: c18Check, Sample: sample,
+		vfRun(t, vfSub[c18Case]{Prop: "C18", Name: "all", Checks: vfN(8, 960), Check: c18Check, Sample: sample,
 			Gen: func(t *rapid.T) c18Case {
 				a, format := c18GenArchive(t)
 				if len(a) > 1024 {
